@@ -550,7 +550,9 @@ impl Prop for C10 {
     fn sanitize(case: &mut Case) {
         case.all_sequences = false;
         match &mut case.src {
-            Src::Bits(b) => b.clamp(330_000),
+            // byte-decoded (fuzzer) cases stay small: the coverage-guided campaign is about call interleavings, the large
+            // positioned iterators are covered by the generated cases
+            Src::Bits(b) => b.clamp(3000),
             Src::Multi(_, v) => v.truncate(60),
             Src::Ints(_, v) => v.truncate(80),
             Src::Wm(v) => {
